@@ -1086,6 +1086,23 @@ impl<D: Device, P: Protocol, S: Socket, TS: TimeSource> GenericCloud<D, P, S, TS
         self.pending_inits.keys().copied().collect()
     }
 
+    pub fn verif_pending_stages(&self) -> Vec<(SocketAddr, u8, bool)> {
+        self.pending_inits.iter().map(|(a, p)| (*a, p.verif_init().map(|i| i.stage()).unwrap_or(0), p.is_ready())).collect()
+    }
+
+    pub fn verif_reconnect(&self) -> Vec<(Vec<SocketAddr>, u16, u16, Time)> {
+        self.reconnect_peers.iter().map(|e| (e.resolved.to_vec(), e.tries, e.timeout, e.next)).collect()
+    }
+
+    pub fn verif_flags(&self) -> (bool, bool) {
+        (self.learning, self.broadcast)
+    }
+
+    pub fn verif_dropped(&self) -> (u64, u64, u64, u64) {
+        let d = &self.traffic.dropped;
+        (d.in_bytes_total, d.in_packets_total as u64, d.out_bytes_total, d.out_packets_total as u64)
+    }
+
     pub fn verif_own_addresses(&self) -> Vec<SocketAddr> {
         self.own_addresses.iter().copied().collect()
     }
